@@ -333,6 +333,45 @@ package table
 //@   at-return requires !old(newPath.IsWithdraw) ==> called(insertSort)
 //@   at-return requires old(newPath.IsWithdraw) ==> called(explicitWithdraw) && !called(insertSort)
 
+// from C10: "resulting attributes equal those of a plain interpreter of the documented model": the remove action for
+// extended communities keeps every community that no pattern matches (and only those)
+//@ props C10
+//@ func RegexpRemoveExtCommunities
+//@   requires path != nil
+//@   claims step
+//@   loop 0 step !match ==> len(newComms) == header(len(newComms)) + 1 && newComms[len(newComms)-1] == comm
+//@   loop 0 step match ==> len(newComms) == header(len(newComms))
+//@ func RegexpRemoveLargeCommunities
+//@   requires path != nil
+//@   claims step
+//@   loop 0 step !match ==> len(newComms) == header(len(newComms)) + 1 && newComms[len(newComms)-1] == comm
+//@   loop 0 step match ==> len(newComms) == header(len(newComms))
+
+// the as-path-prepend action puts copies of the configured AS, and nothing else, in front of the path: whatever
+// becomes the new leading segment starts with / consists of that AS
+//@ func cloneAsPath
+//@   address-quant
+//@   requires asAttr != nil && (forall k int :: 0 <= k && k < len(asAttr.Value) ==> asAttr.Value[k] != nil)
+//@   modifies nothing
+//@   loop 0 invariant forall k int :: 0 <= k && k <= __iter ==> newASparams[k] != nil
+//@   ensures result != nil && fresh(result) && len(result.Value) == len(asAttr.Value) && (forall k int :: 0 <= k && k < len(result.Value) ==> result.Value[k] != nil)
+//@ func (*Path).PrependAsn
+//@   address-quant
+//@   assume-checks
+//@   requires path != nil && wfAsPath(path)
+//@   claims inv-init inv-keep at-call
+//@   loop 0 invariant forall k int :: 0 <= k && k <= __iter ==> asns[k] == asn
+//@   at-call bgp.NewAs4PathParam(segType, newAsList) requires int(repeat) > 0 ==> arg1[0] == asn && arg1[int(repeat)-1] == asn
+//@   at-call bgp.NewAs4PathParam(segType, asns) requires len(arg1) > 0 && arg1[0] == asn && arg1[len(arg1)-1] == asn
+
+// from C16: the verdict as the policy condition uses it. ROATable.Validate gives no verdict (nil) for withdrawals and
+// for families that have no ROA table (everything but IPv4/IPv6 unicast); the rpki condition, which is evaluated for
+// every family, must not dereference that
+//@ props C16
+//@ func (*RpkiValidationCondition).Evaluate
+//@   requires c != nil && path != nil
+//@   claims nil
+
 // =============================================================================================
 // C10 — applying policy never changes the route as stored or as seen by any other peer
 // =============================================================================================
